@@ -43,6 +43,13 @@ func (e *Engine) lemmaJobs(names string) ([]lemmaJob, []string) {
 			errs = append(errs, "lemma "+l.Name+": "+err.Error())
 			continue
 		}
+		if len(vc.strlits) > 0 {
+			names := []string{"str_empty"}
+			for _, n := range vc.strlits {
+				names = append(names, n)
+			}
+			vc.global("(distinct " + strings.Join(names, " ") + ")")
+		}
 		o := &Obl{Name: "lemma/" + l.Name, Kind: "lemma", Detail: l.C.Text, blk: 0, idx: 1 << 30, Guard: "true", Cond: t}
 		out = append(out, lemmaJob{vc, o, i})
 	}
